@@ -9,7 +9,7 @@ env.setup()
 
 ALL = [f"C{i:02d}" for i in range(1, 21)]
 # modules that are finished, reviewed and silent on the unchanged tree
-READY = ["C03", "C04", "C08", "C11", "C13", "C18"]
+READY = ["C03", "C04", "C08", "C11", "C13", "C18", "C19"]
 NOT_BUILT_REASON = "check not built yet in this round (planned: see DESIGN.md section 5)"
 
 ENGINES = [
